@@ -512,7 +512,13 @@ impl Serialize for Extensions {
             ExtensionsVariantV1::Causal(extensions) => {
                 seq.serialize_element(&extensions.log_id)?;
                 seq.serialize_element(&extensions.timestamp)?;
-                seq.serialize_element(&extensions.previous)?;
+
+                // Encode the set in a canonical (sorted) order. The iteration order of a `HashSet`
+                // differs from instance to instance, but equal extensions always need to result in
+                // the same bytes: operation id and signature are derived from them.
+                let mut previous: Vec<&Hash> = extensions.previous.iter().collect();
+                previous.sort();
+                seq.serialize_element(&previous)?;
             }
         }
 
